@@ -11,7 +11,7 @@ use ldpc_toolbox::sparse::SparseMatrix;
 def family(tier, seed):
     if tier == "quick":
         return families.HQ[:2]
-    return families.HQ + [families.JOHNSON] + families.random_family(seed, 3)
+    return families.HQ + [families.JOHNSON] + families.random_family(seed, 2)
 
 
 # representative pairs (one per arithmetic family and schedule) for the extra quick-tier cases
@@ -39,6 +39,16 @@ def build(tier, seed):
                         continue
                     if fi > 0 and "Aminstar" in ty and sched == "flooding":
                         continue  # > 400 s: thorough tier
+                else:
+                    # thorough (~1 h at 10 shards): every pair on the three smallest matrices (chain: limits 0..2, others
+                    # limit 1); representative pairs on the whole family at limit 1, plus chain at limit 3 and the
+                    # 6-cycle matrix at limit 2
+                    if impl in REP:
+                        ok = (lim == 1) or (name == "chain2x3") or (name == "cyc3x6" and lim == 2)
+                    else:
+                        ok = (name == "chain2x3" and lim <= 2) or (name in ("deg3_2x4", "star3x4") and lim == 1)
+                    if not ok:
+                        continue
                 hn = "c01_%s_%s_l%d" % (impl, name, lim)
                 unw = max(maxw, lim) + 3
                 w = 2.0 if lim == 0 else (4.0 + sum(len(x) for x in rows)) * lim * (2.0 if "Aminstar" in ty else 1.0)
@@ -57,5 +67,5 @@ def build(tier, seed):
         "stubs": ["TABLE (8-bit rows)", "CONTRACT (float rows)"],
         "assumptions": ["row weight >= 2 (statement)", "CONTRACT facts hold for libm (validated natively on a grid)"],
     }
-    return {"prelude": PRELUDE + families.rust_defs(fam), "items": items, "meta": meta, "nshards": 14,
+    return {"prelude": PRELUDE + families.rust_defs(fam), "items": items, "meta": meta, "nshards": 14 if tier == "quick" else 10,
             "timeout": 600 if tier == "quick" else 3600, "rss_cap_gb": 8 if tier == "quick" else 12}
